@@ -1,5 +1,123 @@
-"""Thorough tier extras: CPython cross-check with more samples, all queries re-run on cvc5, canaries."""
+"""Thorough tier extras.
+
+crosscheck: the proofs say every clause holds for ALL inputs satisfying the preconditions; so for inputs sampled from the
+solver (models of the preconditions, diversified) the REAL function, run under /venv/bin/python with a pinned clock, must
+satisfy every clause that can be evaluated natively.  A native failure of a clause that was discharged means the engine
+(or the contract's native reading) is wrong: CHECKER-ERROR, never a verdict about repid (DESIGN.md 2.8)."""
+from __future__ import annotations
+
+import json
+import os
+import random
+import subprocess
+import tempfile
+
+import z3
+
+HERE = os.path.dirname(os.path.dirname(os.path.abspath(__file__)))
+
+
+def sample_models(repo, db, key, n, seed):
+    from .contracts import ContractInterp
+    from .lib import build_lib
+    from .smt import model_to_dict
+    from .state import Explorer, State
+    from .tys import mk_sym
+    from .verify import FunctionVerifier, schema_of
+    c = db.contracts[key]
+    if c.harness_src or c.variants or c.setup or c.ghost_init and any(t != "events" for t in c.ghost_init.values()):
+        return None
+    fv = FunctionVerifier(repo, db, c)
+    st = State([], Explorer())
+    ip = ContractInterp(repo, db, st, build_lib())
+    pts = fv.param_types(ip)
+    args = {}
+    for p, t in {**pts, **{k: v for k, v in c.binds.items() if k not in pts}}.items():
+        if t is None:
+            return None
+        args[p] = mk_sym(st, ip.tenv, t, p)
+    env = dict(args)
+    try:
+        for k, expr in c.lets.items():
+            env[k] = ip.eval_spec_expr(expr, env)
+        for r in c.requires:
+            st.assume(ip.spec_bool(r, env))
+        schema = {p: schema_of(ip.tenv, t) for p, t in {**pts, **{k: v for k, v in c.binds.items() if k not in pts}}.items()}
+    except Exception:  # noqa: BLE001
+        return None
+    if "unsupported" in json.dumps(schema):
+        return None
+    rnd = random.Random(seed)
+    models = []
+    ints = [(nm, t) for nm, t in st.input_terms.items() if z3.is_int(t)]
+    for i in range(n):
+        st.solver.push()
+        # diversify: pin a few integer inputs to random values in interesting ranges (retry without if infeasible)
+        picks = rnd.sample(ints, min(3, len(ints)))
+        for nm, t in picks:
+            st.solver.add(t == rnd.choice([0, 1, 2, 10**6, 10**6 - 1, 59 * 10**6, 63_800_000_000 * 10**6 + rnd.randrange(10**9),
+                                           rnd.randrange(0, 10**7), rnd.randrange(63_000_000_000 * 10**6, 64_000_000_000 * 10**6)]))
+        st.solver.set("random_seed", seed + i)
+        r = st.solver.check()
+        if str(r) != "sat":
+            st.solver.pop()
+            st.solver.push()
+            r = st.solver.check()
+        if str(r) == "sat":
+            md = model_to_dict(st.solver.model(), st.input_terms)
+            dts = [v for k, v in md.items() if isinstance(v, int) and 63_000_000_000 * 10**6 < v < 65_000_000_000 * 10**6]
+            base = rnd.choice(dts) if dts else 63_800_000_000 * 10**6
+            t0 = max(0, base + rnd.choice([-10**7, -1, 0, 1, 10**6, 5 * 10**6, 10**9]))
+            md["__clock__"] = [t0, t0 + rnd.randrange(0, 10**6), t0 + 10**6 + rnd.randrange(0, 10**6)]
+            models.append(md)
+        st.solver.pop()
+    return {"schema": schema, "models": models, "clauses": dict(c.ensures), "clock": list(c.clock)}
 
 
 def run_thorough(prop, repo_root, db, keys):
-    return {}
+    from .runner import load
+    repo, _db = load(repo_root)
+    seed = int(os.environ.get("VERIF_SEED", "0") or 0)
+    n = int(os.environ.get("PYVC_CROSSCHECK_SAMPLES", "40"))
+    summary = {"functions": 0, "samples": 0, "clause_evaluations": 0, "skipped_clauses": 0, "native_raised": 0, "disagreements": []}
+    for key in keys:
+        key = key.split("@")[0]
+        try:
+            pack = sample_models(repo, db, key, n, seed)
+        except Exception:  # noqa: BLE001
+            pack = None
+        if not pack or not pack["models"]:
+            continue
+        pack.update({"fn": key, "repo_root": repo_root, "defines": {k: [v[0], v[1]] for k, v in db.defines.items()}})
+        with tempfile.NamedTemporaryFile("w", suffix=".json", delete=False, dir=os.path.join(HERE, "out")) as fh:
+            json.dump(pack, fh, default=str)
+            path = fh.name
+        try:
+            out = subprocess.run(["/venv/bin/python", os.path.join(HERE, "replaylib", "run.py"), path], capture_output=True,
+                                 text=True, timeout=600)
+            results = json.loads(out.stdout.strip().splitlines()[-1])
+        except Exception:  # noqa: BLE001
+            continue
+        finally:
+            os.unlink(path)
+        evaluated = 0
+        for model, res in zip(pack["models"], results):
+            if "__raised__" in res:
+                summary["native_raised"] += 1
+                continue
+            if "__cannot__" in res or "__error__" in res:
+                continue
+            summary["samples"] += 1
+            for cl, v in res.items():
+                if v is True:
+                    evaluated += 1
+                elif v is False:
+                    evaluated += 1
+                    summary["disagreements"].append({"fn": key, "clause": cl, "inputs": {k: model[k] for k in list(model)[:12]}})
+                else:
+                    summary["skipped_clauses"] += 1
+        if evaluated:
+            summary["functions"] += 1
+            summary["clause_evaluations"] += evaluated
+    summary["disagreements"] = summary["disagreements"][:10]
+    return {"crosscheck": summary}
